@@ -384,10 +384,16 @@ func (h *Handler) writeEncrypted(ss *ShellStream, data []byte, flags uint8) erro
 	return h.writer.WriteStreamData(ss.PeerID, ss.StreamID, ciphertext, flags)
 }
 
+// maxOutputChunk is the largest number of stdout/stderr/PTY bytes sent in one
+// message. Every message travels as one sealed STREAM_DATA payload that the
+// client opens as a whole, so the chunk plus the 1-byte message type plus the
+// encryption overhead must fit into a single frame.
+const maxOutputChunk = protocol.MaxPayloadSize - crypto.EncryptionOverhead - 1
+
 // pumpOutput reads from a reader and sends encoded messages to the client.
 // The encoder function determines the message type (stdout or stderr).
 func (h *Handler) pumpOutput(ss *ShellStream, getReader func() io.Reader, encode func([]byte) []byte) {
-	buf := make([]byte, 16*1024) // 16KB buffer
+	buf := make([]byte, maxOutputChunk)
 	for {
 		ss.mu.Lock()
 		session := ss.Session
@@ -436,7 +442,7 @@ func (h *Handler) pumpStderr(ss *ShellStream) {
 
 // pumpPTYOutput reads PTY output and sends it to the client.
 func (h *Handler) pumpPTYOutput(ss *ShellStream) {
-	buf := make([]byte, 16*1024) // 16KB buffer
+	buf := make([]byte, maxOutputChunk)
 	for {
 		ss.mu.Lock()
 		ptySession := ss.PTYSession
